@@ -312,10 +312,12 @@ func TestC17(t *testing.T) {
 			if (first.Outcome == "reject_retry" || first.Outcome == "reject_twice") && true {
 				wantCalls = 2
 			}
-			if len(l) != wantCalls {
+			// When Dial succeeded, attempts to other addresses may still be in flight (or be started
+			// under a cancelled context) when the log is read: only the upper bound is certain then.
+			if len(l) > wantCalls || (derr != nil && len(l) != wantCalls) {
 				ev.Violation(t, "C17", rp, "%s (outcome %s) was dialed %d times, want %d", addr, first.Outcome, len(l), wantCalls)
 			}
-			if wantCalls == 2 {
+			if wantCalls == 2 && len(l) == 2 {
 				if !bytes.Equal(l[1].ECH, retryList) {
 					ev.Violation(t, "C17", rp, "retry to %s used ECH list %q, the server's retry configs are %q", addr, l[1].ECH, retryList)
 				}
